@@ -144,3 +144,73 @@ Proof.
     by (pose proof (aceil_log2_nonneg d); unfold index_ok; lia).
   cbn [andb]. rewrite andb_diag. reflexivity.
 Qed.
+
+(* ------------------------------------------------------------------ the two-clock step of AsyncFIFO.elaborate
+   g_async_step is obtained by symbolic execution of the m.d.comb / m.d[self._w_domain] / m.d[self._r_domain] statements
+   (including the m.If(r_rst) override), the two FFSynchronizer chains and the memory ports.  Its state gst holds the
+   registers in order of appearance (including the two AsyncFFSynchronizer flops af0, af1 = r_rst); to_g reads them off
+   the model's record.  The write-domain / read-domain resets are inputs.  Widths: ctr_bits = n + 1, address n, level alvl_bits n. *)
+Definition to_g (st : afifo) : AsyncFifoGen.gst :=
+  AsyncFifoGen.mkG (pwb st) (crb st) (ps0 st) (ps1 st) (pwg st) (cs0 st) (cs1 st) (crg st) (cwb st) (wlvl st)
+                   (mem st) (rdat st) (Z.b2z (af0 st)) (Z.b2z (af1 st)) (Z.b2z (rrst st)).
+
+Lemma land_b2z a b : Z.land (Z.b2z a) (Z.b2z b) = Z.b2z (a && b).
+Proof. destruct a, b; reflexivity. Qed.
+
+Lemma lnot_b2z a : Z.lnot (Z.b2z a) mod 2 ^ 1 = Z.b2z (negb a).
+Proof. destruct a; reflexivity. Qed.
+
+Lemma upto_addr n x : 0 <= n ->
+  AsyncFifoGen.v_upto x (AsyncFifoGen.v_idx (n + 1) (-1)) mod 2 ^ n = x mod 2 ^ n.
+Proof.
+  intros Hn. unfold AsyncFifoGen.v_upto, AsyncFifoGen.v_idx. change (-1 <? 0) with true. cbv iota.
+  replace (n + 1 + -1) with n by lia. apply Z.mod_mod. pose proof (pow2_pos n Hn). lia.
+Qed.
+
+Lemma w_full_z n p c :
+  Z.land (Z.land
+    (Z.b2z (negb (AsyncFifoGen.v_bit p (AsyncFifoGen.v_idx (n + 1) (-1)) =? AsyncFifoGen.v_bit c (AsyncFifoGen.v_idx (n + 1) (-1)))))
+    (Z.b2z (negb (AsyncFifoGen.v_bit p (AsyncFifoGen.v_idx (n + 1) (-2)) =? AsyncFifoGen.v_bit c (AsyncFifoGen.v_idx (n + 1) (-2))))))
+    (Z.b2z (AsyncFifoGen.v_upto p (AsyncFifoGen.v_idx (n + 1) (-2)) =? AsyncFifoGen.v_upto c (AsyncFifoGen.v_idx (n + 1) (-2))))
+  = Z.b2z (gray_full n p c).
+Proof. rewrite !land_b2z. rewrite <- gen_w_full_eq. reflexivity. Qed.
+
+Lemma gen_async_step_eq n width st e i : 0 <= n ->
+  AsyncFifoGen.g_async_step (n + 1) n (alvl_bits n) width (has_w e) (has_r e)
+    (Z.b2z (i_wen i)) (i_wdata i mod 2 ^ width) (Z.b2z (i_ren i)) (Z.b2z (i_rst i)) (Z.b2z (i_rrst i)) (to_g st)
+  = to_g (async_step n width st e i).
+Proof.
+  intros Hn.
+  unfold AsyncFifoGen.g_async_step, async_step, to_g.
+  destruct (i_rst i); unfold a_pre, o_wrdy, o_rrdy; cbv zeta;
+  cbn [Z.b2z Z.eqb negb
+       AsyncFifoGen.g_produce_w_bin AsyncFifoGen.g_consume_r_bin AsyncFifoGen.g_produce_cdc_0 AsyncFifoGen.g_produce_r_gry
+       AsyncFifoGen.g_produce_w_gry AsyncFifoGen.g_consume_cdc_0 AsyncFifoGen.g_consume_w_gry AsyncFifoGen.g_consume_r_gry
+       AsyncFifoGen.g_consume_w_bin AsyncFifoGen.g_self_w_level AsyncFifoGen.g_storage AsyncFifoGen.g_r_port_data
+       AsyncFifoGen.g_rst_cdc_0 AsyncFifoGen.g_r_rst AsyncFifoGen.g_self_r_rst
+       pwb pwg crb crg ps0 ps1 cs0 cs1 cwb wlvl mem rdat af0 af1 rrst];
+  rewrite !w_full_z, !upto_addr by assumption;
+  rewrite !gen_gray_decode_eq;
+  unfold AsyncFifoGen.g_gray_encode, AsyncFifoGen.lset;
+  destruct (gray_full n (pwg st) (cs1 st)), (crg st =? ps1 st), (i_wen i), (i_ren i), (i_rrst i), e;
+  try reflexivity; destruct (af1 st), (af0 st); reflexivity.
+Qed.
+
+(* the combinational interface outputs before the event (after the asynchronous effect a_pre of the write-domain reset):
+   w_rdy, r_rdy, r_level, r_data *)
+Lemma gen_async_out_eq n width wen wdata ren (rst : bool) rdr st : 0 <= n ->
+  AsyncFifoGen.g_async_out (n + 1) n (alvl_bits n) width wen wdata ren (Z.b2z rst) rdr (to_g st)
+  = (Z.b2z (o_wrdy n (a_pre st rst)), Z.b2z (o_rrdy (a_pre st rst)), o_rlevel n (a_pre st rst), o_rdata (a_pre st rst)).
+Proof.
+  intros Hn.
+  unfold AsyncFifoGen.g_async_out, to_g, o_wrdy, o_rrdy, o_rlevel, o_rdata.
+  destruct rst; unfold a_pre; cbv zeta;
+  cbn [Z.b2z Z.eqb negb
+       AsyncFifoGen.g_produce_w_bin AsyncFifoGen.g_consume_r_bin AsyncFifoGen.g_produce_cdc_0 AsyncFifoGen.g_produce_r_gry
+       AsyncFifoGen.g_produce_w_gry AsyncFifoGen.g_consume_cdc_0 AsyncFifoGen.g_consume_w_gry AsyncFifoGen.g_consume_r_gry
+       AsyncFifoGen.g_consume_w_bin AsyncFifoGen.g_self_w_level AsyncFifoGen.g_storage AsyncFifoGen.g_r_port_data
+       AsyncFifoGen.g_rst_cdc_0 AsyncFifoGen.g_r_rst AsyncFifoGen.g_self_r_rst
+       pwb pwg crb crg ps0 ps1 cs0 cs1 cwb wlvl mem rdat af0 af1 rrst];
+  rewrite !w_full_z, !gen_gray_decode_eq;
+  destruct (gray_full n (pwg st) (cs1 st)), (crg st =? ps1 st), (af1 st); reflexivity.
+Qed.
